@@ -40,7 +40,9 @@ def build(case):
     vals, free = {}, []
     md = {"megacomplex": {}, "dataset": {}}
     rates = [[0.9, 0.12], [2.5, 0.04]][pset]
-    if kin in ("sequential", "parallel"):
+    if kin == "single":  # one compartment: one-column matrices
+        md["megacomplex"]["mk"] = {"type": "decay-parallel", "compartments": ["s1"], "rates": ["k.1"]}
+    elif kin in ("sequential", "parallel"):
         md["megacomplex"]["mk"] = {"type": f"decay-{kin}", "compartments": ["s1", "s2"], "rates": ["k.1", "k.2"]}
     else:
         md["k_matrix"] = {"km": {"matrix": {"s2<-s1": "k.1", "s2<-s2": "k.2", "s1<-s1": "k.3"}}}
@@ -48,10 +50,16 @@ def build(case):
         md["megacomplex"]["mk"] = {"type": "decay", "k_matrix": ["km"]}
         vals.update({"k.3": [0.3, 0.9][pset], "j.1": 1.0, "j.2": 0.0})
         free.append("k.3")
-    vals.update({"k.1": rates[0], "k.2": rates[1]})
-    free += ["k.1", "k.2"]
+    if kin == "single":
+        vals.update({"k.1": rates[0]})
+        free += ["k.1"]
+    else:
+        vals.update({"k.1": rates[0], "k.2": rates[1]})
+        free += ["k.1", "k.2"]
     mcs = ["mk"]
-    species = ["s1", "s2"]
+    species = ["s1"] if kin == "single" else ["s1", "s2"]
+    if case.get("link") is not None:
+        md["dataset_groups"] = {"default": {"link_clp": case["link"]}}
     if irf != "none":
         vals.update({"irf.c": [0.05, 0.2][pset], "irf.w": [0.08, 0.15][pset]})
         free += ["irf.c", "irf.w"]
@@ -89,6 +97,16 @@ def build(case):
         if case["scale"] and i == len(ds_labels) - 1:
             vals[f"scale.{lab}"] = 2.5
             d["scale"] = f"scale.{lab}"
+        if case.get("twin") and i > 0:
+            # same megacomplexes, same irf, same axes as ds1 - but dataset-level inputs of the matrix differ
+            if kin == "decay":
+                vals.update({"j.3": 0.35, "j.4": 0.65})
+                md["initial_concentration"]["j2"] = {"compartments": ["s1", "s2"], "parameters": ["j.3", "j.4"]}
+                d["initial_concentration"] = "j2"
+            else:
+                for n in range(len(mcs)):
+                    vals[f"ms.{n+1}"] = [2.0, 0.5][n % 2]
+                d["megacomplex_scale"] = [f"ms.{n+1}" for n in range(len(mcs))]
         if mode == "full":
             d["global_megacomplex"] = ["mg"]
             if case.get("axis_scale"):
@@ -123,7 +141,7 @@ def simulate_all(case, md, vals, species, extra, ds_labels, noise_seed=None):
     t = time_axis(case["irf"])
     data, clps, coords_used = {}, {}, {}
     for i, lab in enumerate(ds_labels):
-        g = COORDS[case["coords"]] if i == 0 else COORDS[case["coords"]][1:] + 3.0 * i
+        g = COORDS[case["coords"]] if i == 0 or case.get("twin") else COORDS[case["coords"]][1:] + 3.0 * i
         labels = species + [e for e in extra if not e.endswith("_baseline") or e.startswith(lab)]
         clp = None if case["mode"] == "full" else generating_clp(labels, g)
         tc, gc = t.copy(), g.copy()
@@ -276,6 +294,15 @@ def run(run: core.Run):
             for f in (2.0, 0.01):
                 cases.append({"kinetics": kin, "irf": irf, "addon": "none", "mode": "full", "nds": nds, "scale": scale, "coords": coords,
                               "pset": 0, "noise": False, "axis_scale": f})  # fmt: skip
+    # one-column matrices, explicitly unlinked / linked groups, and twin datasets (same megacomplexes, irf and axes,
+    # different initial concentration / megacomplex scale)
+    for kin, irf, addon in itertools.product(("single", "sequential", "parallel", "decay"), ("none", "gaussian"), ("none", "baseline")):
+        for link in (False, True):
+            for nds, twin in ((1, False), (2, False), (2, True)):
+                if nds == 1 and link:
+                    continue
+                cases.append({"kinetics": kin, "irf": irf, "addon": addon, "mode": "clp", "nds": nds, "scale": nds == 2 and not twin,
+                              "coords": "standard", "pset": 0, "noise": False, "link": link, "twin": twin})  # fmt: skip
     run.map("truth", cases)
     rec = []
     fam = [("sequential", "none", "none", ["k.1", "k.2"]), ("parallel", "gaussian", "none", ["k.1", "k.2", "irf.w"]),
@@ -291,6 +318,7 @@ def run(run: core.Run):
                             "free": free, "corner": list(corner)})  # fmt: skip
     run.map("recover", rec, chunksize=1)
     run.bounds = {"kinetics": 3, "irf": 4, "addons": 4, "modes": 2, "dataset_configurations": 5, "parameter_sets": 2,
+                  "extra": "one-compartment models, link_clp False/True, twin datasets on identical axes",
                   "recovery_models": len(fam) if quick else len(fam) + 2, "perturbation": "+-20% corners"}  # fmt: skip
     run.rule = (
         "full product kinetics x IRF x add-on x mode x (datasets, scale, coordinates) (x parameter set); per model: simulate "
